@@ -70,7 +70,9 @@ def oracle_views(w, c, props, probe_extra=()):
     absent = sorted((w.ever - set(w.model)) | set(probe_extra) | {w.key(b'never stored \x00\x01')})
     ask = keys + absent
     w.view_round = getattr(w, 'view_round', 0) + 1
-    if w.view_round % 2 == 0:
+    if P == 'C08' and w.view_round % 2 == 0:
+        # (only for C08, whose histories contain no deletion/repack: after a deletion through another handle a pinned
+        # snapshot legitimately still shows the object; no given property promises otherwise)
         # existence first: the listing below reloads the handle's index session and would hide a stale snapshot
         has = c.has_objects(ask)
         chk(P, has == [k in w.model for k in ask], 'has_objects (first query of the handle in this round) differs from the model',
